@@ -456,6 +456,12 @@ def typed_value_s(draw):
         t = draw(st.sampled_from(["%d", "0%o", "0x%x", "0X%X"])) % n
         if t == "00":
             t = "0"
+        sign = draw(st.sampled_from(["", "", "", "-", "-", "+"]))
+        if sign == "-" and n == 0:
+            sign = ""
+        t = sign + t                      # an integer may be negative (or carry an explicit plus sign)
+        if sign == "-":
+            n = -n
         exp = str(n)
         bad = draw(st.sampled_from(["12x", "pizza", "0x", "1 2", "08", "3.5"]))
     elif sub == 3:
@@ -650,7 +656,7 @@ def universe_entries_s(draw, depth=1):
             return [nm, "s", v]
         if k == "l":
             return [nm, "l", draw(st.lists(st.sampled_from(["x", "y", "z", "", "X", "Y"]), max_size=3))]
-        return [nm, "a", [draw(st.sampled_from(["::1", "::2", "host", "HOST"])), draw(st.sampled_from(["80", "8080", "http", "HTTP"]))]]
+        return [nm, "a", [draw(st.sampled_from(["::1", "::2", "host", "HOST", "host2"])), draw(st.sampled_from(["80", "8080", "http", "HTTP", "https", "ircd", "ircs"]))]]
     top = []
     for obj in draw(st.lists(st.sampled_from(["ra", "rb", "stray", "RA"]), max_size=3, unique_by=lambda s: s.lower())):
         ents = [leaf(nm) for nm in draw(st.lists(st.sampled_from(UNIVERSE_NAMES), max_size=5, unique=True))]
